@@ -5,13 +5,17 @@
 
 #![allow(dead_code, unused_imports, clippy::too_many_arguments, clippy::type_complexity, clippy::needless_range_loop)]
 
+mod chains;
 mod dens;
 mod report;
 mod sched;
 mod script;
 mod util;
 
+mod c06;
+mod c16;
 mod c17;
+mod c19;
 
 use report::Report;
 
@@ -64,8 +68,12 @@ fn main() {
         i += 1;
     }
     let mut report = Report::new(&prop.to_uppercase(), &args.tier, args.seed);
+    util::install_quiet_panic_hook();
     match prop.as_str() {
+        "c06" => c06::run(&args, &mut report),
+        "c16" => c16::run(&args, &mut report),
         "c17" => c17::run(&args, &mut report),
+        "c19" => c19::run(&args, &mut report),
         _ => {
             eprintln!("unknown property {prop}");
             std::process::exit(2)
